@@ -31,7 +31,9 @@ def et_valid_ranges(caps):
     if "meter_ext2" in caps:
         v.append((36045, 36124))
     if "mppt" in caps:
-        v.append((35301, 35361))
+        # the library's MPPT table lists sensors up to 35364 (apparent_power3): a device that has the block has those
+        # registers, although the library's bulk request stops at 35361 (C14's known findings)
+        v.append((35301, 35364))
     if "eco_v2" in caps:
         v.append((47545, 47588))
         v.append((47595, 47603))
